@@ -33,7 +33,8 @@ type result struct {
 	panicked interface{}
 	err      error
 	consumed int
-	msg      *ref9p.Msg // canonical
+	msg      *ref9p.Msg // canonical for the dialect (filled by canon)
+	raw      *ref9p.Msg // every field Unpack filled in for the type, whatever the dialect (rawFields)
 	fc       *go9p.Fcall
 	alloc    uint64
 }
@@ -56,9 +57,16 @@ func unpack(b []byte, dotu bool, measure bool) (r result) {
 	}
 	r.err, r.consumed, r.fc = err, n, fc
 	if err == nil && fc != nil {
-		r.msg = ref9p.Canon(conv.FromFcall(fc), dotu)
+		r.raw = rawFields(fc)
 	}
 	return
+}
+
+// canon fills in the dialect-canonical view of the decoded fields.
+func (r *result) canon(dotu bool) {
+	if r.raw != nil && r.msg == nil {
+		r.msg = ref9p.Canon(r.raw, dotu)
+	}
 }
 
 func same(a, b result) string {
@@ -71,8 +79,27 @@ func same(a, b result) string {
 	if a.consumed != b.consumed {
 		return fmt.Sprintf("consumed %d vs %d", a.consumed, b.consumed)
 	}
-	return ref9p.Diff(a.msg, b.msg)
+	return diffRaw(a.raw, b.raw)
 }
+
+// diffRaw is ref9p.Diff with the differing stat field spelled out.
+func diffRaw(a, b *ref9p.Msg) string {
+	d := ref9p.Diff(a, b)
+	if d != "" && a.Type == b.Type && a.Stat != b.Stat {
+		x, y := a.Stat, b.Stat
+		x.Name, x.Uid, x.Gid, x.Muid, y.Name, y.Uid, y.Gid, y.Muid = "", "", "", "", "", "", "", ""
+		if x == y {
+			return "stat strings differ: " + d
+		}
+		return fmt.Sprintf("stat: (strings aside) %+v != %+v", x, y)
+	}
+	return d
+}
+
+// onLenient, when set, is told about every input that was accepted although the
+// strict reference decoder refuses it (bookkeeping only: the statement allows a
+// tolerant decoder as long as the clauses on an accepted input hold).
+var onLenient func(what string, dotu bool)
 
 const allocFactor = 16
 
@@ -161,6 +188,10 @@ func checkMsg(b []byte, dotu bool) error {
 		return nil
 	}
 	// success
+	if rerr != nil && onLenient != nil {
+		onLenient(ref9p.TypeName(r.fc.Type), dotu)
+	}
+	r.canon(dotu)
 	if uint64(r.consumed) != declared {
 		return fmt.Errorf("consumed %d, size prefix %d", r.consumed, declared)
 	}
@@ -190,19 +221,67 @@ func checkMsg(b []byte, dotu bool) error {
 			return fmt.Errorf("fields differ from the reference decoding: %s", d)
 		}
 	}
-	// re-encode the decoded fields and decode again
+	// re-encode the decoded fields and decode again. "The decoded fields" are
+	// ALL fields the decoder filled in for this message type, also those the
+	// dialect of the connection does not carry on the wire (ecode, n_uname,
+	// the Tcreate extension, the .u part of a stat record): a decoder that
+	// hands out such a field in dialect 9P2000 has produced a result that no
+	// packet of that dialect can express, so the comparison is made on the
+	// raw fields (rawFields), not on the dialect-canonical ones.
 	if !reencodable(r.msg, dotu) {
 		return nil
 	}
-	re := ref9p.Encode(r.msg, dotu)
+	raw := r.raw
+	// (1) through the independent encoder
+	re := ref9p.Encode(raw, dotu)
 	r2 := unpack(re, dotu, false)
 	if r2.panicked != nil || r2.err != nil {
 		return fmt.Errorf("re-encoding of the decoded fields does not decode: panic=%v err=%v", r2.panicked, r2.err)
 	}
+	r2.canon(dotu)
 	if d := ref9p.Diff(r.msg, r2.msg); d != "" {
 		return fmt.Errorf("re-encoded packet decodes to different fields: %s", d)
 	}
+	if d := diffRaw(raw, r2.raw); d != "" {
+		return fmt.Errorf("decoded (dotu=%v) fields %s cannot be expressed in that dialect: the re-encoded packet (%d bytes, accepted packet %d bytes) decodes to different fields: %s", dotu, ref9p.TypeName(raw.Type), len(re), declared, d)
+	}
+	// (2) through go9p's own constructors, same dialect
+	if pk, ok := repack(raw, dotu, int(declared)); ok {
+		r3 := unpack(pk, dotu, false)
+		if r3.panicked != nil || r3.err != nil {
+			return fmt.Errorf("the packet go9p's constructor builds from the decoded fields does not decode: panic=%v err=%v", r3.panicked, r3.err)
+		}
+		if d := diffRaw(raw, r3.raw); d != "" {
+			return fmt.Errorf("decoded (dotu=%v) %s, re-encoded by go9p's constructor (%d bytes, accepted packet %d bytes), decodes to different fields: %s", dotu, ref9p.TypeName(raw.Type), len(pk), declared, d)
+		}
+	}
 	return nil
+}
+
+// rawFields returns the fields Unpack filled in for the message type without
+// regard to the dialect: type-canonical (fields of other message types are
+// dropped) but keeping ecode, n_uname, the Tcreate extension and the .u part
+// of a stat record whatever the dialect was.
+func rawFields(fc *go9p.Fcall) *ref9p.Msg {
+	return ref9p.Canon(conv.FromFcall(fc), true)
+}
+
+// repack builds the packet for the fields m with go9p's constructors in the
+// given dialect. ok is false when the constructor refuses (its own limits, e.g.
+// a walk of more than 16 elements: property C01's business, not this one's).
+func repack(m *ref9p.Msg, dotu bool, declared int) (pkt []byte, ok bool) {
+	defer func() {
+		if recover() != nil {
+			pkt, ok = nil, false
+		}
+	}()
+	fc := &go9p.Fcall{Buf: make([]byte, declared+64)}
+	conv.DirSize = 0
+	if err := conv.Pack(fc, m, dotu); err != nil {
+		return nil, false
+	}
+	go9p.SetTag(fc, m.Tag)
+	return fc.Pkt, true
 }
 
 func reencodable(m *ref9p.Msg, dotu bool) bool {
@@ -217,7 +296,9 @@ type dirResult struct {
 	err      error
 	amt      int
 	rest     int
-	st       ref9p.Stat
+	st       ref9p.Stat // dialect-canonical
+	raw      ref9p.Stat // every field of the Dir as decoded
+	d        *go9p.Dir
 	alloc    uint64
 }
 
@@ -237,7 +318,9 @@ func unpackDir(b []byte, dotu bool, measure bool) (r dirResult) {
 	}
 	r.err, r.amt, r.rest = err, amt, len(rest)
 	if err == nil && d != nil {
-		r.st = ref9p.CanonStat(ptr(conv.Stat(d)), dotu)
+		r.raw = conv.Stat(d)
+		r.st = ref9p.CanonStat(&r.raw, dotu)
+		r.d = d
 	}
 	return
 }
@@ -254,8 +337,8 @@ func sameDir(a, b dirResult) string {
 	if a.amt != b.amt {
 		return fmt.Sprintf("amt %d vs %d", a.amt, b.amt)
 	}
-	if a.st != b.st {
-		return fmt.Sprintf("fields differ: %#v vs %#v", a.st, b.st)
+	if a.raw != b.raw {
+		return fmt.Sprintf("fields differ: %#v vs %#v", a.raw, b.raw)
 	}
 	return ""
 }
@@ -305,6 +388,9 @@ func checkDir(b []byte, dotu bool) error {
 		}
 		return nil
 	}
+	if rerr != nil && onLenient != nil {
+		onLenient("stat record", dotu)
+	}
 	if r.amt != declared {
 		return fmt.Errorf("UnpackDir consumed %d bytes, the record's size field says %d", r.amt, declared)
 	}
@@ -330,8 +416,34 @@ func checkDir(b []byte, dotu bool) error {
 		if r.st != r2.st {
 			return fmt.Errorf("re-encoded record decodes differently")
 		}
+		// all decoded fields, also those the dialect does not carry (see checkMsg)
+		if r.raw != r2.raw {
+			return fmt.Errorf("decoded (dotu=%v) stat fields cannot be expressed in that dialect: the re-encoded record (%d bytes, accepted record %d bytes) decodes differently:\n got  %#v\n want %#v", dotu, len(re), declared, r2.raw, r.raw)
+		}
+		// and through go9p's own encoder
+		if ref9p.StatLen(&r.raw, dotu) <= 65535+2 {
+			pk, perr := packDir(r.d, dotu)
+			if perr == nil {
+				r3 := unpackDir(pk, dotu, false)
+				if r3.panicked != nil || r3.err != nil {
+					return fmt.Errorf("the record PackDir builds from the decoded Dir does not decode: %v %v", r3.panicked, r3.err)
+				}
+				if r.raw != r3.raw {
+					return fmt.Errorf("decoded (dotu=%v) Dir, re-encoded by PackDir (%d bytes, accepted record %d bytes), decodes differently:\n got  %#v\n want %#v", dotu, len(pk), declared, r3.raw, r.raw)
+				}
+			}
+		}
 	}
 	return nil
+}
+
+func packDir(d *go9p.Dir, dotu bool) (b []byte, err error) {
+	defer func() {
+		if p := recover(); p != nil {
+			err = fmt.Errorf("PackDir panicked: %v", p)
+		}
+	}()
+	return go9p.PackDir(d, dotu), nil
 }
 
 // Run applies the oracle for the case's dialect.
